@@ -320,8 +320,8 @@ def cores(draw, q, with_target=False, with_schedule=False, gap_models=("none",))
 def parts(tier):
     q = tier == "quick"
     return [
-        Part("alone_vs_core", run_alone_vs_core, strategy=cores(q, with_target=True), examples=48 if q else 1200, timeout=180),
+        Part("alone_vs_core", run_alone_vs_core, strategy=cores(q, with_target=True), examples=96 if q else 1200, timeout=180),
         Part("type_sharing", run_type_sharing, strategy=cores(q, gap_models=("none", "flow", "no_flow", "duct_average")),
-             examples=48 if q else 1200, timeout=180),
-        Part("interleaving", run_interleaving, strategy=cores(q, with_schedule=True), examples=32 if q else 800, timeout=180),
+             examples=96 if q else 1200, timeout=180),
+        Part("interleaving", run_interleaving, strategy=cores(q, with_schedule=True), examples=64 if q else 800, timeout=180),
     ]
